@@ -709,7 +709,7 @@ func (g *vgen) containerLen() int {
 	if g.p.Small {
 		return rapid.IntRange(0, 2).Draw(g.t, "cl")
 	}
-	switch weighted(g.t, "clc", 2, 3, 6, 1) {
+	switch weighted(g.t, "clc", 4, 6, 12, 3) {
 	case 0:
 		return 0
 	case 1:
@@ -801,7 +801,12 @@ func (g *vgen) val(ts *TSpec, opt string, depth int) Val {
 		}
 		n := g.containerLen()
 		if n > 5 {
-			n = 6
+			// maps with a multi-byte entry count only when entries are cheap
+			ku, vu := u.Key.Under().Kind, u.Elem.Under().Kind
+			cheap := func(k Kind) bool { return k.IsSignedInt() || k.IsUnsignedInt() || k == KBool || k == KString }
+			if !(n >= 127 && cheap(ku) && cheap(vu) && ku != KBool && ku != KUint8 && ku != KInt8) {
+				n = 6
+			}
 		}
 		if n == 0 {
 			if rapid.Bool().Draw(g.t, "mn") {
@@ -817,6 +822,16 @@ func (g *vgen) val(ts *TSpec, opt string, depth int) Val {
 				k = ZeroVal(u.Key)
 				if u.Key.Under().Kind == KString {
 					k.S = []byte{}
+				}
+			} else if n > 6 {
+				// many entries: distinct keys by construction
+				switch ku := u.Key.Under().Kind; {
+				case ku == KString:
+					k = Val{S: []byte(fmt.Sprintf("k%d", i))}
+				case ku.IsSignedInt():
+					k = Val{I: int64(i) - 3}
+				default:
+					k = Val{U: uint64(i)}
 				}
 			} else {
 				k = g.keyVal(u.Key)
@@ -923,4 +938,10 @@ func (g *vgen) zeroish(ts *TSpec) Val {
 		}
 	}
 	return ZeroVal(ts)
+}
+
+// GenFieldType draws a type legal in struct-field position, with its option.
+func GenFieldType(t *rapid.T, p Profile, depth int) (*TSpec, string) {
+	g := &tgen{t: t, p: p, nameN: 1000}
+	return g.fieldType(depth)
 }
